@@ -48,6 +48,9 @@ type pmCase struct {
 	// its page-table frames, as vmm.Map can): the hand-over reports the error, and boot goes on
 	// making early allocations
 	MapFail int `json:"mapfail,omitempty"`
+	// RetryInit (C02, with MapFail): after the failed hand-over the whole of pmm.Init runs again
+	// (fresh main allocator, same early allocator): the early allocator must carry on where it was
+	RetryInit bool `json:"retryinit,omitempty"`
 	// Grow (C07, non-zero): after the first hand-over the allocator is set up a second time, from
 	// a memory map whose last available region has that many more frames: it reserves and maps
 	// again, and what it maps must again lie inside what it reserved
